@@ -21,6 +21,7 @@ import shutil
 
 import numpy as np
 
+from vmon import faults
 from vmon import refmodel as R
 from vmon import taps, world
 
@@ -60,7 +61,7 @@ M_EMK = 'emission:k-spectrum==sum_g(w_g*I_g)'
 M_SEQ_TR = 'sequence:transmission:degenerate-k==xsec'
 M_SEQ_EM = 'sequence:emission:degenerate-k==xsec'
 REQUIRED = dict(monitors=[M_TR, M_TRT, M_EM, M_EMCF, M_WEXP, M_RANGE, M_JENSEN, M_EMTAU, M_JDEPTH, M_EMK, M_SEQ_TR, M_SEQ_EM],
-                classes=['sequence:add:Rayleigh', 'sequence:set', 'sequence:rebuild', 'family:transmission', 'family:emission', 'ngauss:1', 'ngauss:2-4', 'ngauss:5+',
+                classes=['sequence:add:Rayleigh', 'sequence:set', 'sequence:rebuild', 'sequence:fault', 'sequence:fault-fired', 'family:transmission', 'family:emission', 'ngauss:1', 'ngauss:2-4', 'ngauss:5+',
                          'weights:dirichlet', 'weights:gauss-legendre', 'weights:uniform',
                          'magnitude:transparent', 'magnitude:thin', 'magnitude:mixed', 'magnitude:saturating',
                          'molecules:1', 'molecules:2+', 'interp:linear', 'interp:exp', 'k:degenerate',
@@ -100,6 +101,7 @@ def _tau_g(sigma, density, path, startK, endK, density_offset, layer):
 
 def setup(ctx):
     import taurex.contributions.absorption as A
+    faults.install(ctx)
     import taurex.model.emission as E
     from taurex.contributions import Contribution, AbsorptionContribution, CIAContribution
     problems = R.self_test()
@@ -174,6 +176,7 @@ def setup(ctx):
 
 def teardown(ctx):
     taps.untap_all()
+    faults.uninstall()
 
 
 # ------------------------------------------------------------- generators
@@ -288,6 +291,16 @@ def run(ctx, spec, family, mode, xd, kd, given_deltaz=False, steps=None):
                 model[st['name']] = float(model[st['name']]) * st['factor']
             elif st['op'] == 'rebuild':
                 model.build()
+            elif st['op'] == 'fault':
+                # a rejected evaluation (injected InvalidModelException at the site the workload drew), then on
+                faults.arm(st['site'], k=st['k'])
+                try:
+                    model.model()
+                except InvalidModelException:
+                    pass
+                finally:
+                    if faults.disarm():
+                        ctx.observe('sequence:fault-fired')
             if mode == 'xsec' and family == 'emission':
                 _state['xs_em'] = {}
             if mode == 'ktables':
@@ -573,6 +586,8 @@ def wl_sequence(ctx, rng):
             steps.append({'op': 'set', 'name': 'planet_mass', 'factor': float(rng.uniform(1.0, 1.5))})
         else:
             steps.append({'op': 'rebuild'})
+        if rng.random() < 0.3:
+            steps.append({'op': 'fault', 'site': faults.SITES[int(rng.integers(0, len(faults.SITES)))], 'k': int(rng.integers(1, 3))})
     if not any(st['op'] == 'add' for st in steps) and 'Rayleigh' not in have:
         steps.insert(int(rng.integers(0, len(steps) + 1)), {'op': 'add', 'what': 'Rayleigh'})
     ctx.feature(steps=[st['op'] + ':' + str(st.get('what', st.get('name', ''))) for st in steps])
